@@ -146,7 +146,7 @@ func c08Scenario(r *Rng, i int, base map[string]json.RawMessage, palette []json.
 			hdrs[Pick(r, []string{"Authorization", "X-Age", "X-Gender", "X-Bad", "X-Div", "Accept"})] = Pick(r, fieldRefs)
 		}
 		extras = append(extras, map[string]any{"uuid": us.next(), "type": "call_webhook", "method": "POST", "url": "http://example.com/" + Pick(r, []string{"bool", "false", "num", "obj", "arr", "null", "text", "missing", "@fields.state"}), "headers": hdrs, "body": "x", "result_name": "Hook"})
-		extras = append(extras, map[string]any{"uuid": us.next(), "type": "send_msg", "text": "hook: @webhook.json @webhook.json.ok @webhook.status @results.hook.extra @(json(webhook.json))"})
+		extras = append(extras, map[string]any{"uuid": us.next(), "type": "send_msg", "text": c08Tpl("hook: @webhook.json @webhook.json.ok @webhook.status @results.hook.extra @(json(webhook.json))")})
 		shapeBits = append(shapeBits, fmt.Sprintf("headers%d", len(hdrs)))
 	}
 	if r.Chance(50) {
@@ -166,7 +166,7 @@ func c08Scenario(r *Rng, i int, base map[string]json.RawMessage, palette []json.
 		// several kinds of issue on one node
 		extras = append(extras, map[string]any{"uuid": us.next(), "type": "add_contact_groups", "groups": []map[string]any{{"uuid": us.next(), "name": "Gone"}}})
 		extras = append(extras, map[string]any{"uuid": us.next(), "type": "send_msg", "text": "@legacy_extra.x @(has_pattern(\"a\", \"[\"))"})
-		extras = append(extras, map[string]any{"uuid": us.next(), "type": "set_contact_field", "field": map[string]any{"key": "nope", "name": "Nope"}, "value": "@webhook.x"})
+		extras = append(extras, map[string]any{"uuid": us.next(), "type": "set_contact_field", "field": map[string]any{"key": "nope", "name": "Nope"}, "value": c08Tpl("@webhook.x")})
 		shapeBits = append(shapeBits, "issues")
 	}
 	if r.Chance(40) {
@@ -201,7 +201,7 @@ func c08Scenario(r *Rng, i int, base map[string]json.RawMessage, palette []json.
 	nodes := []map[string]any{
 		{"uuid": n1, "actions": append(pick(r.Range(1, 3)), extras...), "exits": []map[string]any{{"uuid": us.next(), "destination_uuid": n2}}},
 		{"uuid": n2, "router": router, "exits": exits},
-		{"uuid": n3, "actions": append(pick(r.Range(1, 3)), map[string]any{"uuid": us.next(), "type": "send_msg", "text": "after wait: w=@webhook j=@webhook.json h=@results.hook k=@(json(webhook)) id=@webhook.json.id"}), "exits": []map[string]any{{"uuid": us.next()}}},
+		{"uuid": n3, "actions": append(pick(r.Range(1, 3)), map[string]any{"uuid": us.next(), "type": "send_msg", "text": c08Tpl("after wait: w=@webhook j=@webhook.json h=@results.hook k=@(json(webhook)) id=@webhook.json.id")}), "exits": []map[string]any{{"uuid": us.next()}}},
 	}
 	main := map[string]any{"uuid": flowUUID, "name": "Main", "spec_version": "13.6.0", "language": "eng", "type": "messaging", "revision": 1, "expire_after_minutes": 60,
 		"localization": localization, "nodes": nodes}
@@ -215,6 +215,21 @@ func c08Scenario(r *Rng, i int, base map[string]json.RawMessage, palette []json.
 }
 
 // everything the property names for one generated flow: inspection, a run with resumes, the session JSON
+// set by C02: the trigger contact has been seen before (odd seeds); templates do not read the transient @webhook
+var c08SeenBefore = false
+var c08NoWebhookReads = false
+
+// the template, or the same without its reads of @webhook when those are not wanted
+func c08Tpl(t string) string {
+	if !c08NoWebhookReads {
+		return t
+	}
+	for _, w := range []string{"@webhook.json.ok", "@webhook.json.id", "@webhook.json", "@webhook.status", "@webhook.x", "@(json(webhook.json))", "@(json(webhook))", "@webhook"} {
+		t = strings.ReplaceAll(t, w, "-")
+	}
+	return t
+}
+
 func c08Execute(assetsJSON []byte, flowUUID string, seed int64, inputs []string, restart bool) (c08Out, error) {
 	out := c08Out{}
 	httpx.SetRequestor(c08Requestor{})
@@ -241,6 +256,18 @@ func c08Execute(assetsJSON []byte, flowUUID string, seed int64, inputs []string,
 	eng := test.NewEngine()
 	contact := flows.NewEmptyContact(sa, "Ann", i18n.Language("fra"), nil)
 	contact.AddURN(urns.URN("tel:+12065550100"), nil)
+	if c08SeenBefore {
+		// C02: a contact as hosts have them, read from its stored form (NewEmptyContact leaves the unset fields out of the context,
+		// which reading back does not), seen before on odd seeds
+		seen := ""
+		if seed%2 == 1 {
+			seen = `, "last_seen_on": "2025-04-20T09:30:00Z"`
+		}
+		cj := `{"uuid": "5d76d86b-3bb9-4d5a-b822-c9d86f5d8e4f", "id": 1234, "name": "Ann", "language": "fra", "status": "active", "created_on": "2018-06-20T11:40:30Z", "urns": ["tel:+12065550100"]` + seen + `}`
+		if rc, err := flows.ReadContact(sa, []byte(cj), assets.IgnoreMissing); err == nil {
+			contact = rc
+		}
+	}
 	trig := triggers.NewBuilder(env, assets.NewFlowReference(assets.FlowUUID(flowUUID), "Main"), contact).Manual().Build()
 	s, sp, err := eng.NewSession(sa, trig)
 	if err != nil {
@@ -366,6 +393,30 @@ func c08Definitions() (names []string, defs [][]byte) {
 					}
 				}
 			}
+		}
+	}
+	// every legacy ruleset, action and test of the legacy test data in a holder flow; the airtime ruleset also with two countries
+	// that share a currency at different amounts (refused - always, or never)
+	for k, h := range c16LegacyHolders() {
+		add(fmt.Sprintf("legacy-holder#%d", k), h)
+		var doc map[string]any
+		if json.Unmarshal(h, &doc) != nil {
+			continue
+		}
+		rss, _ := doc["rule_sets"].([]any)
+		if len(rss) == 0 {
+			continue
+		}
+		rs, _ := rss[0].(map[string]any)
+		cfg, _ := rs["config"].(map[string]any)
+		if rs["ruleset_type"] != "airtime" || cfg == nil {
+			continue
+		}
+		for _, amount := range []float64{5, 3} {
+			cfg["US"] = map[string]any{"currency_name": "US Dollar", "amount": amount, "code": "US", "name": "United States", "currency_code": "USD"}
+			cfg["PR"] = map[string]any{"currency_name": "US Dollar", "amount": 7, "code": "PR", "name": "Puerto Rico", "currency_code": "USD"}
+			v, _ := json.Marshal(doc)
+			add(fmt.Sprintf("legacy-holder#%d+shared-currency-%v", k, amount), v)
 		}
 	}
 	return
